@@ -1169,6 +1169,53 @@ Proof.
   reflexivity.
 Qed.
 
+(** *** pkg/dbc/identifier.go Identifier.Validate  (model: Dbc/Validate.v [validate], proved there to be
+    the byte-wise [Parser.ident_valid]).  The loop `for i, r := range id` is [go_range_string]
+    (GoSem.v's own UTF-8 decoding); the model decodes with Scanner.v's [utf8_decode].  The two need
+    not be compared beyond: an ASCII byte is its own rune, anything else gives a rune >= 128, which
+    both sides reject.  The `defer` that rewraps a non-nil error is a no-op on nil-ness. *)
+From CanVerif Require Dbc.Scanner Dbc.Validate.
+
+Lemma ident_loop fuel : forall bs i, 0 <= i ->
+  match go_range_string_fuel fuel (fun v_i v_r (_ : unit) =>
+      if (v_i =? 0) && negb (v_r =? 95) && negb (Translated.IsAlphaChar v_r) then LoopReturn err_nonnil
+      else if (0 <? v_i) && negb (v_r =? 95) && negb (Translated.IsAlphaChar v_r) && negb (Translated.IsNumChar v_r)
+           then LoopReturn err_nonnil else LoopNext tt) i bs tt with
+  | LoopReturn r => r
+  | LoopNext _ => err_nil
+  end = Dbc.Validate.validate_loop fuel i bs.
+Proof.
+  induction fuel as [| fuel IH]; intros bs i Hi; [reflexivity |].
+  destruct bs as [| b0 t]; [reflexivity |].
+  cbn [go_range_string_fuel Dbc.Validate.validate_loop].
+  change Translated.IsAlphaChar with Dbc.Parser.is_alpha. change Translated.IsNumChar with Dbc.Parser.is_num.
+  destruct (go_utf8_decode_cases b0 t) as [[Hlo Eg] | [Hhi (rg & wg & Eg & Hrg & Hwg)]];
+    destruct (Dbc.Validate.decode_cases b0 t) as [[Hlo' Es] | [Hhi' (rs & ws & Es & Hrs)]]; try lia; rewrite Eg, Es.
+  - (* ASCII: the same rune, the same step *)
+    destruct ((i =? 0) && negb (b0 =? 95) && negb (Dbc.Parser.is_alpha b0)); [reflexivity |].
+    destruct ((0 <? i) && negb (b0 =? 95) && negb (Dbc.Parser.is_alpha b0) && negb (Dbc.Parser.is_num b0)); [reflexivity |].
+    apply IH. lia.
+  - (* not ASCII: both runes are >= 128 and are rejected, at the first position or later *)
+    destruct (Dbc.Validate.hi_not_ident rg Hrg) as (-> & -> & ->).
+    destruct (Dbc.Validate.hi_not_ident rs Hrs) as (-> & -> & ->).
+    cbn [negb andb]. rewrite !andb_true_r.
+    destruct (Z.eqb_spec i 0) as [-> | Hne]; [reflexivity |].
+    assert (Hp : (0 <? i) = true) by (apply Z.ltb_lt; lia). rewrite Hp. reflexivity.
+Qed.
+
+Lemma T_Identifier_Validate_eq id : Translated.Identifier_Validate id = Dbc.Validate.validate id.
+Proof.
+  unfold Translated.Identifier_Validate, Dbc.Validate.validate, go_range_string.
+  change (bytes_len id) with (Dbc.Scanner.blen id).
+  destruct (Dbc.Scanner.blen id =? 0); [reflexivity |].
+  destruct (128 <? Dbc.Scanner.blen id); [reflexivity |].
+  apply ident_loop. lia.
+Qed.
+
+(** ... and therefore the byte-wise check the parser model uses *)
+Lemma T_Identifier_Validate_eq' id : Translated.Identifier_Validate id = Dbc.Parser.ident_valid id.
+Proof. rewrite T_Identifier_Validate_eq. apply Dbc.Validate.validate_bytewise. Qed.
+
 (* @group lookup requires can descriptor *)
 (** ** pkg/descriptor: the lookups with loops (fourth round).  database.go Message / Node / Signal,
        message.go MultiplexerSignal, signal.go ValueDescription / UnmarshalValueDescription
